@@ -19,8 +19,9 @@ Step(e) ==
     \/ e.op = "read_val"      /\ ReadVal(e.v, e.at, Unordered(e))
     \/ e.op = "read_refused"  /\ ReadRefused
     \/ e.op = "encoded_len"   /\ EncodedLen(e.v, e.r)
+    \/ e.op = "total"         /\ Total(e.r)
     \/ e.op = "batch_eq"      /\ BatchEqualsScalar(e.batch, e.scalar)
-    \/ e.op = "read_field"    /\ ReadField(e.v, e.present, e.consumed, e.at, e.wv, e.fv, e.rv)
+    \/ e.op = "read_field"    /\ ReadField(e.v, e.present, e.consumed, e.at, e.wv, e.fv, e.rv, e.mx)
     \/ e.op = "open"          /\ Open(e.src, e.ranges)
     \/ e.op = "readn"         /\ ReadN(e.k, e.got)
     \/ e.op = "read_exact"    /\ ReadExact(e.k, e.got)
